@@ -118,7 +118,9 @@ impl SlidingLogState {
             let time_until_slot = oldest
                 .checked_add(self.window_duration)
                 .map(|expiry| expiry.saturating_duration_since(now))
-                .unwrap_or(Duration::ZERO);
+                // An expiry instant that cannot be represented is never reached: the slot does
+                // not free up (ZERO here would be read as "permit taken" by the caller)
+                .unwrap_or(Duration::MAX);
 
             if time_until_slot > self.timeout_duration {
                 Err(self.timeout_duration)
